@@ -123,6 +123,16 @@ def enumerated(tier):
             for mut in (None, {"kind": "edit", "path": "Audio/deep/c.wav"}, {"kind": "edit", "path": "Video/d.mov"}, {"kind": "rename", "path": "Audio/b.wav", "new": "Audio/b2.wav"}):
                 yield {"root": "Card", "tree": tree, "spell": "abs", "steps": [{"op": "create", "root": r, "formats": fm, "flags": []} for r, fm in order],
                        "mutation": mut, "target": "", "form": "abs", "verbose": False, "hflag": hflag}
+    # the latest generation(s) carry no directory hashes (-n, -sf): the earlier ones still decide
+    for tail in ([("create", ["-n"])], [("create_sf", [])], [("create", ["-n"]), ("create", ["-n"])], [("create", []), ("create", ["-n"])]):
+        for mut in (None, {"kind": "edit", "path": "Audio/deep/c.wav"}, {"kind": "add", "path": "zz_new.mov"}, {"kind": "rm", "path": "a.mov"}):
+            steps = [{"op": "create", "root": "", "formats": ["xxh64"], "flags": []}]
+            for op, fl in tail:
+                st_ = {"op": op, "root": "", "formats": ["xxh64"], "flags": fl}
+                if op == "create_sf":
+                    st_["sf"] = ["Video/d.mov"]
+                steps.append(st_)
+            yield {"root": "Card", "tree": tree, "spell": "abs", "steps": steps, "mutation": mut, "target": "", "form": "abs", "verbose": False, "hflag": None}
 
 
 def run_case(scn, ctx):
